@@ -64,7 +64,7 @@ func genDecodedName(t *rapid.T, real string) string {
 		}
 		return "/"
 	}
-	switch k := rapid.IntRange(0, 24).Draw(t, "namekind"); {
+	switch k := rapid.IntRange(0, 25).Draw(t, "namekind"); {
 	case k >= 20: // escapes into a sibling directory of the store root
 		return genSiblingName(t, real)
 	case k < 8: // dot-escape attempts
